@@ -196,7 +196,8 @@ def run(lines, out, args):
                 st["ifs"][int(f[1])].__bases__ = tuple(st["ifs"][b] for b in bs) or (Interface,)
             elif op == "class":
                 bs = [int(x) for x in f[2].split()]
-                st["classes"][int(f[1])] = type("C%d_%s" % (serial[0], f[1]), tuple(st["classes"][b] for b in bs) or (object,), {})
+                ns = {"__slots__": ("slot_%s" % f[1],)} if len(f) > 3 and f[3] == "s" else {}      # `s`: a layout-carrying class
+                st["classes"][int(f[1])] = type("C%d_%s" % (serial[0], f[1]), tuple(st["classes"][b] for b in bs) or (object,), ns)
             elif op == "inst":
                 o = st["classes"][int(f[2])]()
                 st["objs"][int(f[1])] = o
